@@ -43,3 +43,33 @@ def Kind.weak : Kind → Bool
   | .pyfloat => true | .pyint => true | _ => false
 
 end Py
+
+namespace Py
+
+/-- an exact dyadic rational num / 2^exp: every finite binary float is one -/
+structure Dyad where
+  num : Int
+  exp : Nat
+  deriving DecidableEq, Repr
+
+/-- `math.modf(x)`: (fractional part, whole part), both with the sign of x; whole part = truncation toward zero -/
+def Dyad.modf (x : Dyad) : Dyad × Dyad :=
+  let w := Int.tdiv x.num (2 ^ x.exp)
+  (⟨x.num - w * 2 ^ x.exp, x.exp⟩, ⟨w, 0⟩)
+
+/-- `int(x)`: truncation toward zero -/
+def Dyad.toInt (x : Dyad) : Int := Int.tdiv x.num (2 ^ x.exp)
+
+/-- `x * k` for an integer k (exact; the translator only emits it for powers of two, where the float product is exact too) -/
+def Dyad.mulInt (x : Dyad) (k : Int) : Dyad := ⟨x.num * k, x.exp⟩
+
+/-- `round(x)`: nearest integer, ties to even -/
+def Dyad.round (x : Dyad) : Int :=
+  let d : Int := 2 ^ x.exp
+  let q := x.num / d
+  let r := x.num % d
+  if 2 * r > d then q + 1
+  else if 2 * r < d then q
+  else if q % 2 = 0 then q else q + 1
+
+end Py
